@@ -35,7 +35,9 @@ CFG = {
                   "(input goroutine || explicit-width probe answered or timed out || collection loop || applyQuirks, any queue capacity) that ends by the DA1 "
                   "notification with nothing dropped, no env override and COLORTERM unset leaves exactly {sixels, unicodeCore, osc11 iff the background was "
                   "reported}; the renderer's capabilities are emuCaps (C07's caps_exact + the invariant PInv: nothing on its way to the probe carries a column "
-                  "other than 1); emu_dialogue_terminates: such a run exists for every emulator state. "
+                  "other than 1); emu_dialogue_completes: TERMINATION FOR EVERY INTERLEAVING - a run without time-outs whose inputs are the emulator's replies and "
+                  "that cannot be continued without a time-out has New() past applyQuirks with exactly these capabilities (queue >= 7, non-blocking reply sends, "
+                  "buffered chCursorPos: liveP_ok, from the regenerated source facts; invariant LInv); emu_dialogue_terminates: such a run exists for every emulator state. "
                   "Earlier rounds - proved over the composed models, for ALL frame histories: emu_shows_application / emu_shows_application_now - from any "
                   "emulator state showing the blank screen with the cursor hidden (one exists for every size 1x1..65535^2: emu_start_related), "
                   "for every history of admissible frames rendered under the capability set detected inside the emulator (first frame a "
@@ -68,8 +70,8 @@ CFG = {
                   "attribute 4 are outside the emulator model (modelled-not-verified). Resizes: covered by emu_shows_across_resizes for an application on the alternate "
                   "screen (hypothesis mode.smcup, which the real start-up establishes and no token of the vocabulary changes); F112c (resize() left the pen at the "
                   "style of the last reflowed primary-screen cell) was repaired in /repo by the C05 builder (aefad78) - Witness/F112c proves the old code fails and "
-                  "the current code keeps the pen, scenarios resize-* and the emuresize verdict replay it on the real code. emu_dialogue_caps is a statement about "
-                  "all runs that reach the end of New() by DA1 (plus one terminating run); that every maximal run terminates is not stated. COLORTERM=truecolor "
+                  "the current code keeps the pen, scenarios resize-* and the emuresize verdict replay it on the real code. emu_dialogue_caps / emu_dialogue_completes are over C07's model of New(), "
+                  "in which real time is abstracted (a time-out is a label): that the 50 ms / 3 s timers do not fire is an assumption. COLORTERM=truecolor "
                   "inherited from the host sets rgb without a reply (the emulator implements direct colour; the composition theorems are at emuCaps, rgb=false): "
                   "explicit hypothesis colorterm=false. F112b: decision recorded in notes/C12.md - a violation of the text with a one-line repair in render(), not "
                   "made because render()'s skeleton and the raw parameter string are pinned by C01's model (C01 builder declined for this round). "
